@@ -313,7 +313,8 @@ def graphs_replay(ctx, mc_module, trace_module, driver_mod, graphs, invariants, 
                              dump=True, view=view)
         out["states"] += res.distinct
         out["transitions"] += res.generated
-        walks, cov, tot = walker.edge_cover(g, maxlen=gr.get("maxlen", maxlen), rng=random.Random(ctx.seed))
+        walks, cov, tot = walker.edge_cover(g, maxlen=gr.get("maxlen", maxlen), rng=random.Random(ctx.seed),
+                                            maxwalks=gr.get("maxwalks"))
         out["edges_total"] += tot
         out["edges_replayed"] += cov
         if gr.get("repeat"):
